@@ -67,6 +67,8 @@ class Scenario(apiworld.ApiWorld):
         live = self.net.live()
         if live and self.used["loss"] < p.get("max_loss", 2):
             acts += [("eof",), ("reset",)]
+            if p.get("linkerr"):
+                acts.append(("linkerr",))       # the link dies with ETIMEDOUT (an OSError that is not a ConnectionError)
         if self.net.pending and p.get("burst_needs_wait") and self.used["burst"] and not self.used["adv"]:
             # (interim) with ten commands buffered the link only comes back after their lifetime has run out
             acts.append(("wait", 31.0))
@@ -116,10 +118,13 @@ class Scenario(apiworld.ApiWorld):
                 L.settle()
             else:
                 L.turn()
-        elif op in ("eof", "reset"):
+        elif op in ("eof", "reset", "linkerr"):
             self.used["loss"] += 1
             t = self.net.live()[-1]
-            (t.peer_eof if op == "eof" else t.peer_reset)()
+            if op == "linkerr":
+                t.peer_reset(TimeoutError(110, "sim: connection timed out"))
+            else:
+                (t.peer_eof if op == "eof" else t.peer_reset)()
         elif op == "accept":
             self.net.resolve(True)
         elif op == "refuse":
@@ -369,14 +374,14 @@ def run(tier, seed, part=None):
     chk.assumptions = ["outage lengths from {0, one refusal (2 s back-off), 10, 31, 400 s}; AT4 silence via a console that stops "
                        "answering group status requests; environment events at quiescent points (thorough: one mid-reaction event)"]
     if tier == "quick":
-        plans = [({"max_tick": 3, "max_loss": 1, "max_edit": 1, "max_adv": 1, "poll": False}, 6, 0),
+        plans = [({"max_tick": 3, "max_loss": 1, "max_edit": 1, "max_adv": 1, "poll": False, "linkerr": True}, 6, 0),
                  ({"max_tick": 4, "max_loss": 0, "max_edit": 0, "max_adv": 1, "poll": True}, 6, 0),
                  ({"max_tick": 1, "max_loss": 2, "max_edit": 1, "max_adv": 0, "poll": False, "max_silent": 1, "max_failopen": 1}, 7, 0),
                  ({"max_tick": 2, "max_loss": 1, "max_edit": 0, "max_adv": 1, "poll": True, "outages": [400.0]}, 6, 0),
                  ({"max_tick": 1, "max_loss": 1, "max_edit": 1, "max_adv": 1, "poll": False, "max_burst": 1, "outages": [10.0, 31.0]}, 6, 0)]
         cap = 45
     else:
-        plans = [({"max_tick": 4, "max_loss": 2, "max_edit": 2, "max_adv": 2, "poll": False, "max_cmd": 1}, 8, 0),
+        plans = [({"max_tick": 4, "max_loss": 2, "max_edit": 2, "max_adv": 2, "poll": False, "max_cmd": 1, "linkerr": True}, 8, 0),
                  ({"max_tick": 6, "max_loss": 1, "max_edit": 1, "max_adv": 2, "poll": True}, 8, 0),
                  ({"max_tick": 3, "max_loss": 1, "max_edit": 1, "max_adv": 1, "poll": True}, 6, 1),
                  ({"max_tick": 2, "max_loss": 3, "max_edit": 1, "max_adv": 1, "poll": False, "max_silent": 1, "max_failopen": 2}, 9, 0)]
